@@ -294,7 +294,7 @@ Qed.
 Lemma ainv_seg_loop : forall v u0 frames σ, ainv σ -> ainv (seg_loop C v u0 frames σ).
 Proof.
   induction frames as [|[[u tid] rid] r IH]; intros σ I; cbn; auto.
-  apply IH. destruct (unit_ok u0 u); auto using ainv_handle.
+  apply IH. destruct (unit_ok C u0 u); auto using ainv_handle.
 Qed.
 
 Lemma ainv_lost_loop : forall v keys σ, ainv σ -> ainv (lost_loop C v keys σ).
@@ -422,7 +422,7 @@ Qed.
 Lemma noreact_seg : forall v u0 frames σ, noreact σ -> noreact (seg_loop C v u0 frames σ).
 Proof.
   induction frames as [|[[u tid] rid] r IH]; intros σ H; cbn; auto.
-  apply IH. destruct (unit_ok u0 u); auto using noreact_handle.
+  apply IH. destruct (unit_ok C u0 u); auto using noreact_handle.
 Qed.
 
 Lemma noreact_lost_loop : forall v keys σ, noreact σ -> noreact (lost_loop C v keys σ).
@@ -477,7 +477,7 @@ Proof.
   - apply execute_safe_no_overwrite; auto.
   - unfold do_segment. generalize (match frames with (u, _, _) :: _ => u | [] => ac_unit_default C end). intro u0.
     revert σ I H Hs. induction frames as [|[[u tid] rid] r IH]; intros σ I H Hs; cbn; auto.
-    destruct (unit_ok u0 u); [|apply IH; auto].
+    destruct (unit_ok C u0 u); [|apply IH; auto].
     rewrite IH; auto using ainv_handle, noreact_handle, lost_of_handle_noreact.
   - unfold do_lost.
     assert (E : forall keys σ1, noreact σ1 -> a_lost (lost_loop C v keys σ1) = a_lost σ1).
@@ -569,7 +569,7 @@ Theorem lost_errbacks_all : forall v σ,
   (forall x, In x (a_fired σ) -> In x (a_fired σ')) /\
   (forall k d, In (k, d) (a_pending σ) -> In (d, OErr ConnectionExc) (a_fired σ')).
 Proof.
-  intros v σ. cbn. unfold do_lost. destruct HC as (_ & _ & _ & _ & _ & _ & _ & _ & Hcl & Hlp & Hex & Hcf).
+  intros v σ. cbn. unfold do_lost. destruct HC as (_ & _ & _ & _ & _ & _ & _ & _ & Hcl & Hlp & Hex & Hcf & _).
   rewrite Hlp, Hcl, Hcf. cbn. rewrite <- Hex.
   apply (lost_loop_drains v (a_pending σ) (set_conn σ false)); reflexivity.
 Qed.
@@ -601,7 +601,7 @@ Proof.
     apply react_disconnected. exact Hc.
   - unfold do_segment. generalize (match frames with (u, _, _) :: _ => u | [] => ac_unit_default C end). intro u0.
     revert σ Hc. induction frames as [|[[u tid] rid] r IH]; intros σ Hc; cbn; auto.
-    apply IH. destruct (unit_ok u0 u); auto using conn_handle.
+    apply IH. destruct (unit_ok C u0 u); auto using conn_handle.
   - destruct (lost_errbacks_all v σ) as (_ & H & _). exact H.
   - exact Hc.
 Qed.
@@ -710,7 +710,7 @@ Proof.
   - apply dinv_execute_k; auto.
   - unfold do_segment. generalize (match frames with (u, _, _) :: _ => u | [] => ac_unit_default C end). intro u0.
     revert σ D. induction frames as [|[[u tid] rid] r IH]; intros σ D; cbn; auto.
-    apply IH. destruct (unit_ok u0 u); auto using dinv_handle.
+    apply IH. destruct (unit_ok C u0 u); auto using dinv_handle.
   - unfold do_lost.
     assert (D0 : dinv (if ac_lost_clears C && ac_lost_clear_first C then set_conn σ false else σ))
       by (destruct (ac_lost_clears C && ac_lost_clear_first C); auto; apply (dinv_ext σ); auto).
